@@ -23,8 +23,16 @@ import (
 	"golang.org/x/tools/go/ssa/ssautil"
 )
 
+// repoRoot is /repo; VERIF_REPO may point the checker at a scratch worktree of the repository (used only to try the
+// checks against seeded changes without touching /repo; the registered commands never set it).
+var repoRoot = func() string {
+	if v := os.Getenv("VERIF_REPO"); v != "" {
+		return v
+	}
+	return "/repo"
+}()
+
 const (
-	repoRoot   = "/repo"
 	modApp     = "github.com/godaddy/asherah/go/appencryption"
 	modSec     = "github.com/godaddy/asherah/go/securememory"
 	modServer  = "github.com/godaddy/asherah/server/go"
